@@ -7,6 +7,29 @@ pub struct Case {
     pub linked: bool,
     pub batch: Vec<usize>,
     pub rounds: u32,
+    /// per-entry link flag (0 none, 1 IOSQE_IO_LINK, 2 IOSQE_IO_HARDLINK) for mixed chains; None: `linked` decides
+    pub links: Option<Vec<u8>>,
+}
+impl Case {
+    /// the link flag entry `i` is submitted with (the last entry of a submission never links on)
+    pub fn link_of(&self, i: usize) -> u8 {
+        if i + 1 >= self.batch.len() {
+            return 0;
+        }
+        match &self.links {
+            Some(l) => l.get(i).copied().unwrap_or(0),
+            None => self.linked as u8,
+        }
+    }
+    pub fn any_link(&self) -> bool {
+        (0..self.batch.len()).any(|i| self.link_of(i) != 0)
+    }
+    pub fn mode_name(&self) -> String {
+        match &self.links {
+            Some(_) => format!("chain-flags {:?}", (0..self.batch.len()).map(|i| ["none", "LINK", "HARDLINK"][self.link_of(i) as usize]).collect::<Vec<_>>()),
+            None => (if self.linked { "linked" } else { "independent" }).to_string(),
+        }
+    }
 }
 
 /// What the running kernel does with a failing member of a link chain, per opcode
@@ -37,6 +60,7 @@ pub fn case_json(c: &Case, prior: u64, op: &str, round: u32, pos: Option<usize>)
         "flags": c.flags,
         "flags_name": flags_name(c.flags),
         "linked": c.linked,
+        "links": c.links,
         "batch": c.batch.iter().map(|&s| SYMS[s].name).collect::<Vec<_>>(),
         "rounds": c.rounds,
         "prior_submissions": prior,
@@ -109,7 +133,8 @@ pub fn run_case(sh: &mut Shard, rs: &mut RingState, case: &Case, cal: &Calib, r:
     let wu = World::create(&format!("{pair}/u"), &case.batch);
     let wr = World::create(&format!("{pair}/r"), &case.batch);
     let fd0 = lowest_free_fd();
-    r.outcome(if !case.linked { "batch:independent" } else { "batch:linked" });
+    let any_link = case.any_link();
+    r.outcome(if case.links.is_some() { "batch:mixed-link-flags" } else if !case.linked { "batch:independent" } else { "batch:linked" });
     let mut resync = false;
 
     for round in 0..case.rounds {
@@ -130,7 +155,7 @@ pub fn run_case(sh: &mut Shard, rs: &mut RingState, case: &Case, cal: &Calib, r:
         let mut sqes = Vec::new();
         let mut ctor_panic = false;
         for (i, s) in su.iter_mut().enumerate() {
-            let link = case.linked && i + 1 < n;
+            let link = case.link_of(i);
             match catch(|| s.to_sqe(&wu, link)) {
                 Ok(q) => sqes.push(q),
                 Err(p) => {
@@ -158,20 +183,29 @@ pub fn run_case(sh: &mut Shard, rs: &mut RingState, case: &Case, cal: &Calib, r:
         }
 
         // --- reference world: the same sequence as direct calls
+        // A chain is a maximal run of entries joined by link flags.  A member that fails in the kernel's sense
+        // (calibrated per opcode) and carries IOSQE_IO_LINK cancels the whole rest of its chain; one that carries
+        // IOSQE_IO_HARDLINK (or no flag: it is the last of its chain) does not: what follows runs exactly as the
+        // direct calls one after the other would.
         let mut want: Vec<i64> = Vec::with_capacity(n);
         let mut severed = false;
-        for s in sr.iter_mut() {
-            if case.linked && severed {
+        let mut cancel_rest_of_chain = false;
+        for (i, s) in sr.iter_mut().enumerate() {
+            if cancel_rest_of_chain {
                 want.push(-(libc::ECANCELED as i64));
             } else {
                 let x = s.direct(&wr, sh.reg_fd);
-                if case.linked && cal.severs(s, x) {
+                if case.link_of(i) == 1 && cal.severs(s, x) {
                     severed = true;
+                    cancel_rest_of_chain = true;
                 }
                 want.push(x);
             }
+            if case.link_of(i) == 0 {
+                cancel_rest_of_chain = false; // the chain ends here
+            }
         }
-        if case.linked && round == 0 {
+        if any_link && round == 0 {
             r.outcome(if severed { "chain:severed" } else { "chain:ran-through" });
         }
 
@@ -254,7 +288,7 @@ pub fn run_case(sh: &mut Shard, rs: &mut RingState, case: &Case, cal: &Calib, r:
         let strong: Vec<usize> = (0..n).filter(|&p| differs(p) && res_u[p] != Some(canc) && want[p] != canc).collect();
         let weak: Vec<usize> = (0..n).filter(|&p| differs(p) && want[p] == canc && res_u[p].map(|g| g < 0 && g != canc).unwrap_or(false)).collect();
         let root: Vec<usize> = if !strong.is_empty() { strong } else { weak.into_iter().take(1).collect() };
-        let consequence = |p: usize| case.linked && !root.is_empty() && !root.contains(&p);
+        let consequence = |p: usize| any_link && !root.is_empty() && !root.contains(&p);
         for p in 0..n {
             let op = su[p].op();
             let opn = op.name();
@@ -263,14 +297,14 @@ pub fn run_case(sh: &mut Shard, rs: &mut RingState, case: &Case, cal: &Calib, r:
                 r.outcome(&format!("res:{}", res_class(op, g)));
                 let equal = if op.returns_fd() && w >= 0 { g >= 0 } else { g == w };
                 if !equal && !consequence(p) {
-                    let key = if case.linked && !root.contains(&p) { "C18:linked:cancel-propagation-differs".to_string() } else { format!("C18:{opn}:result-differs") };
+                    let key = if any_link && !root.contains(&p) { "C18:linked:cancel-propagation-differs".to_string() } else { format!("C18:{opn}:result-differs") };
                     viol(
                         r,
                         key,
                         format!(
                             "entry {p} ({}) of {} batch {:?}: completion res {g} ({}), direct call gives {w} ({})",
                             SYMS[su[p].sym].name,
-                            if case.linked { "linked" } else { "independent" },
+                            case.mode_name(),
                             case.batch.iter().map(|&s| SYMS[s].name).collect::<Vec<_>>(),
                             res_class(op, g),
                             res_class(op, w)
@@ -315,7 +349,7 @@ pub fn run_case(sh: &mut Shard, rs: &mut RingState, case: &Case, cal: &Calib, r:
 
         // --- twin trees
         let (tu, tr) = (wu.tree(), wr.tree());
-        if tu != tr && !(case.linked && !root.is_empty()) && got.problem.is_none() && !ctor_panic {
+        if tu != tr && !(any_link && !root.is_empty()) && got.problem.is_none() && !ctor_panic {
             let diff: Vec<&String> = tu.iter().filter(|l| !tr.contains(l)).chain(tr.iter().filter(|l| !tu.contains(l))).collect();
             let pos = diff.first().and_then(|l| pos_of_tree_line(l)).filter(|&p| p < n);
             let opn = pos.map(|p| SYMS[case.batch[p]].op.name()).unwrap_or("batch");
